@@ -1,12 +1,23 @@
 #!/bin/bash
-# usage: tools/try_benign.sh <diff> : apply to /repo, run all 20 quick checks in parallel, revert; print non-zero ones
-d=$1
-cd /repo || exit 2
-if ! git apply --check "$d" 2>/dev/null; then echo "$(basename $d): PATCH DOES NOT APPLY"; exit 3; fi
-git apply "$d"
-cd /verif
-res=$(for i in 01 02 03 04 05 06 07 08 09 10 11 12 13 14 15 16 17 18 19 20; do echo C$i; done | xargs -P 10 -I{} sh -c 'timeout 300 /venv/bin/python -m wverif check {} --no-write > /tmp/ben_{}.out 2>&1; echo "{}=$?"' | sort | tr '\n' ' ')
-git -C /repo checkout -- .
-bad=$(echo "$res" | tr ' ' '\n' | grep -v "=0$" | tr '\n' ' ')
-echo "$(basename $(dirname $d))/$(basename $d): ${bad:-all-0}"
-for b in $bad; do p=${b%%=*}; grep -E "^(  C|ANALYSIS-ERROR)" /tmp/ben_$p.out | head -4 | cut -c1-260; done
+# usage: tools/try_benign.sh <diff>... : apply each to a scratch export of /repo HEAD (in /dev/shm), run all 20 quick
+# checks against it with --root, print the non-zero ones.  Nothing is written to /repo or to evidence/.
+one() {
+  d=$1
+  tag=$(basename $(dirname $d))_$(basename $d .diff)
+  w=/dev/shm/ben_$tag
+  rm -rf $w; mkdir -p $w
+  git -C /repo archive HEAD | tar -x -C $w
+  if ! (cd $w && git apply --unsafe-paths --directory=$w $d 2>/dev/null || patch -s -p1 -d $w < $d >/dev/null 2>&1); then echo "$tag: PATCH DOES NOT APPLY"; rm -rf $w; return; fi
+  cd /verif
+  res=""
+  for i in 01 02 03 04 05 06 07 08 09 10 11 12 13 14 15 16 17 18 19 20; do
+    timeout 300 /venv/bin/python -m wverif check C$i --root $w --no-write > $w/out_C$i.txt 2>&1
+    rc=$?
+    [ $rc -ne 0 ] && res="$res C$i=$rc"
+  done
+  echo "$tag:${res:- all-0}"
+  for b in $res; do p=${b%%=*}; grep -E "^(  C|ANALYSIS-ERROR)" $w/out_$p.txt | head -4 | cut -c1-260; done
+  rm -rf $w
+}
+export -f one
+printf "%s\n" "$@" | xargs -P 8 -I{} bash -c 'one {}'
